@@ -19,6 +19,10 @@ Supported Python subset (anything else: the translator fails, which the checks t
 Types: ord (an abstract totally ordered type, comparisons go through the parameters lt/le), val (Edzed.Val),
 bool, rat, optrat (Optional number), optx (any Optional), str, vals (List Val).
 
+Further schemes in this file: TrEdit (filters.DataEdit), TrAct (order of actions of set_output / eval_block /
+Circuit.abort / restore), TrSend (ExtEvent.send); in tools/py2lean_dispatch.py: TrProg (control flow of
+SBlock.event and Event.send as programs in a state + exception + early-return monad, property C11).
+
 Usage: py2lean.py <output file>
 """
 import ast
@@ -1156,6 +1160,10 @@ def main(outfile):
     main_ext(os.path.join(os.path.dirname(outfile), 'TranslatedExt.lean'))
     import py2lean_sig                                           # separate module: CBlock.check_signature (C15)
     py2lean_sig.main_sig(os.path.join(os.path.dirname(outfile), 'TranslatedSig.lean'), write_if_changed)
+    import py2lean_dispatch
+    py2lean_dispatch.main(os.path.join(os.path.dirname(outfile), 'TranslatedDispatch.lean'),
+                          dict(Untranslatable=Untranslatable, node_path=node_path, fn_ast=fn_ast, emit=emit,
+                               write_if_changed=write_if_changed, block=block))
 
 
 if __name__ == '__main__':
